@@ -6,6 +6,8 @@ CONSTANTS
   WithPre = TRUE
   RepKinds = {"pruned", "float", "none"}
   Misbehave = TRUE
+  AskMisbehave = TRUE
+  Swallow = FALSE
 INVARIANT Inv
 PROPERTY TellNeverAltersFinished
 PROPERTY OthersUntouched
